@@ -1,7 +1,11 @@
 #!/bin/bash
+VROOT="$(cd "$(dirname "$0")/.." && pwd)"; REPO="${VERIF_REPO:-/repo}"; export VERIF_REPO="$REPO"
 # re-confirms every seeded change under /verif/seeded against the current checks (sequential: it patches /repo itself)
-cd /verif
+cd $VROOT
 for d in seeded/*/; do
-  n=$(basename $d); pid=$(python3 -c "import json;print(json.load(open('$d/meta.json'))['property'])")
-  tools/seedtest.sh $n $pid /verif/seeded/$n 2>&1 | tail -1
+  n=$(basename $d); [ -f $d/meta.json ] || continue; pid=$(python3 -c "import json;print(json.load(open('$d/meta.json'))['property'])")
+  tools/seedtest.sh $n $pid $VROOT/seeded/$n 2>&1 | tail -1
+done
+for d in seeded/refactors/*/; do
+  n=$(basename $d); tools/refactest.sh $n $VROOT/seeded/refactors/$n 2>&1 | tail -1
 done
